@@ -1,5 +1,5 @@
 """C14 — INCLUDE only reads inside the project and include cycles are errors."""
-import itertools, random, shutil, tempfile
+import itertools, re, random, shutil, tempfile
 from common import *
 import treecorr
 
@@ -168,6 +168,17 @@ def run(tier, out, model_ok, proof):
             outside += 1
             out.violations.append({"what": "a path outside the project was accessed: %s" % bad[:3], "class": "outside-access",
                                    "input": {n: bytes.fromhex(h).decode("latin1") for n, h in c["files"].items() if n == "root.jst" or cid.startswith("g")}})
+        # (1b) "absolute paths, any '.' or '..' path segment and backslashes are refused before the
+        # file system is consulted": a single INCLUDE whose parameter is written bare (no blank, no
+        # quote, so the parameter is the text itself) and is of that kind touches no file at all
+        if not cid.startswith("g") and a:
+            root = bytes.fromhex(c["files"]["root.jst"]).decode("latin1")
+            mm = re.fullmatch(r"JSIGHT 0\.3\nINCLUDE ([^ \t\"\n\r#]+)\n", root)
+            if mm:
+                nm = mm.group(1)
+                if nm.startswith("/") or "\\" in nm or any(sg in (".", "..") for sg in nm.split("/")):
+                    out.violations.append({"what": "INCLUDE %s: the name has an absolute path, a dot segment or a backslash, yet the file system was consulted: %s" % (nm, a[:3]),
+                                           "class": "unsafe-name-consulted", "input": {"root.jst": root}})
         # (2) the model's access log is what really happened
         mr = m.get(cid)
         if mr is not None and "log" in mr:
